@@ -143,6 +143,14 @@ Theorem C13_window_keywords_forwarded : window_forwarding_ok = true.
 Proof. exact window_forwarding. Qed.
 Print Assumptions C13_window_keywords_forwarded.
 
+(* TypeBlocks.group (decision REGENERATED from type_blocks.py): np.unique is called with axis= exactly when the key
+   array is 2-D, along the grouping axis, independent of how many rows/columns the key selects (a one-row list key
+   on axis 1 used to fall outside this) *)
+Theorem C13_group_unique_axis : forall axis two_d many_rows many_cols, axis = 0 \/ axis = 1 ->
+  tb_group_unique_axis axis two_d many_rows many_cols = model_unique_axis axis two_d.
+Proof. exact group_unique_axis. Qed.
+Print Assumptions C13_group_unique_axis.
+
 (* --- windows --- *)
 (* the loop of axis_window_items, with its index arithmetic REGENERATED from the source, equals the
    anchor enumeration for every parameter tuple (accepted or rejected), and so never needs more
